@@ -58,6 +58,9 @@ META = {
     "C12": {"technique": "stateful (model-based) property testing of the plugin step provider: generated concurrent action histories + life-story invariants",
             "level_text": "Generated histories of environment actions, sequential and overlapped, are applied to a real running plugin step with a recording handler; legal-life-story invariants are checked after every round. Interleavings are real goroutine races perturbed by generated delay plans, not an exhaustive schedule enumeration.",
             "level_note": "trusted base: the recording StageChangeHandler and the invariant code (harness/vrun/c12.go), the scripted deployer/plugin; scope is the plugin provider (the foreach provider is covered through C13)"},
+    "C17": {"technique": "property-based generators of the concurrent checks executed under the Go race detector with injected delays",
+            "level_text": "Dynamic race detection over generated concurrent executions (overlapping runs, cancellations, loops, provider histories, concurrent preparation) perturbed by delay plans; a report is attributed to the engine by the owner frame of the racing access.",
+            "level_note": "trusted base: the Go race detector, the attribution rule in harness/props/c17_test.go; the harness itself runs under the same detector"},
 }
 
 NOT_APPLICABLE = []
